@@ -3,7 +3,9 @@ package main
 import (
 	"encoding/hex"
 	"fmt"
+	"runtime"
 	"strings"
+	"sync"
 
 	goerrors "github.com/ajitpratap0/GoSQLX/pkg/errors"
 	"github.com/ajitpratap0/GoSQLX/pkg/gosqlx"
@@ -200,6 +202,12 @@ func runC05(c *runCtx) {
 			}
 		}
 	}
+	type heldCase struct {
+		text  string
+		mtoks []models.TokenWithSpan
+		ref   string // code and location of the error of a parse on its own
+	}
+	var held []heldCase
 	// (3) parser errors at the offending token
 	for i := 0; i < c.n(600, 20000); i++ {
 		sg.Plain = true
@@ -226,6 +234,9 @@ func runC05(c *runCtx) {
 		if err == nil {
 			res.stat("corruption-accepted")
 			continue
+		}
+		if len(held) < 400 {
+			held = append(held, heldCase{text, mtoks, c05ErrKey(err)})
 		}
 		var e *goerrors.Error
 		for x := err; x != nil; {
@@ -266,4 +277,82 @@ func runC05(c *runCtx) {
 			res.stat("parse-error-at-earlier-token")
 		}
 	}
+	// (4) the location does not depend on what else is converted or parsed meanwhile: a conversion result that is held
+	// while other inputs are converted still yields the error of its own text; parsers used side by side (one per
+	// goroutine, as documented) report the locations of their own texts
+	for i := range held {
+		a, b := held[i], held[(i+1+rb.Intn(len(held)))%len(held)]
+		crA, err := parser.VerifConvert(a.mtoks)
+		if err != nil {
+			continue
+		}
+		before := fmt.Sprint(crA.PositionMapping) + "|" + fmt.Sprint(len(crA.Tokens))
+		for k := 0; k <= i%3; k++ {
+			if _, err := parser.VerifConvert(b.mtoks); err != nil {
+				break
+			}
+		}
+		res.count("held|"+a.text+"|"+b.text, true)
+		wit := map[string]any{"history": []string{"convert A", "convert B", "ParseWithPositions(A)"}, "A": a.text, "B": b.text}
+		if after := fmt.Sprint(crA.PositionMapping) + "|" + fmt.Sprint(len(crA.Tokens)); after != before {
+			res.fail("held-conversion-modified", "the position mapping of a held conversion result changed when another input was converted", wit, nil)
+		}
+		pp := parser.NewParser()
+		_, perr := pp.ParseWithPositions(crA)
+		pp.Release()
+		if got := c05ErrKey(perr); got != a.ref {
+			res.fail("error-location-after-other-conversion", "the error of a text converted before another conversion is not the error of that text parsed on its own", wit, map[string]any{"got": got, "want": a.ref})
+		}
+	}
+	if len(held) >= 8 {
+		prev := runtime.GOMAXPROCS(4)
+		var wg sync.WaitGroup
+		var mu sync.Mutex
+		bad := map[string]string{}
+		for w := 0; w < 8; w++ {
+			w := w
+			wg.Add(1)
+			go func() {
+				defer wg.Done()
+				for r := 0; r < c.n(300, 3000); r++ {
+					hc := held[(w*37+r)%len(held)]
+					pp := parser.GetParser()
+					_, err := pp.ParseFromModelTokensWithPositions(hc.mtoks)
+					parser.PutParser(pp)
+					if got := c05ErrKey(err); got != hc.ref {
+						mu.Lock()
+						bad[hc.text] = got + " want " + hc.ref
+						mu.Unlock()
+						return
+					}
+				}
+			}()
+		}
+		wg.Wait()
+		runtime.GOMAXPROCS(prev)
+		res.count("concurrent-locations", true)
+		for text, d := range bad {
+			res.fail("error-location-under-concurrency", "parsers used side by side, one per goroutine: the error of a text is not the one it has when parsed on its own", map[string]any{"input": text, "workers": 8}, map[string]any{"got_want": d})
+			break
+		}
+	}
+
+}
+
+// c05ErrKey: code and location of the first structured error in the chain
+func c05ErrKey(err error) string {
+	if err == nil {
+		return "accepted"
+	}
+	for x := err; x != nil; {
+		if ee, ok := x.(*goerrors.Error); ok {
+			return fmt.Sprintf("%s@%d:%d", ee.Code, ee.Location.Line, ee.Location.Column)
+		}
+		u, ok := x.(interface{ Unwrap() error })
+		if !ok {
+			break
+		}
+		x = u.Unwrap()
+	}
+	return "unstructured"
 }
